@@ -242,7 +242,9 @@ func GenDialogue(g *vh.Gen, c Cfg, pool []string, o Opts) []byte {
 		mail := cmdCase(g, "MAIL") + " " + cmdCase(g, "FROM:") + g.Pick2s("", "", " ") + "<" + from + ">"
 		var bodyLines []string
 		if o.SizeParams && g.Chance(0.5) {
-			mail += " " + g.Pick("SIZE", "size") + "=" + g.Pick("10", "100", "1000", "5000", "70000", "99999999", "2147483648", "12ab", "0")
+			mail += " " + g.Pick("SIZE", "size") + "=" + g.Pick("10", "100", "1000", "5000", "70000", "99999999", "2147483648", "12ab", "0",
+				"4294967296", "4294967297", "9223372036854775807", "9223372036854775808", "12345678901234567890", "18446744073709551615",
+				"18446744073709551616", "18446744073709551626", "340282366920938463463374607431768211456", "00000000000000000000000000000000005")
 		}
 		if g.Chance(0.15) {
 			mail += " BODY=8BITMIME"
